@@ -2208,3 +2208,27 @@ pub proof fn lemma_model_prints_one_row(m: BDD, out: Rows, filter: TruthTableEnt
 {
     if m != BDD::False { lemma_cube_one_row(m); }
 }
+
+// ---- the constructor's glue: tokenizer -> parser / variable list (the tokenizer and extract_vars themselves are assumed, A9)
+
+/// the tokenizer as a function of the input stream and the ordering handed to it (None = it reports an error)
+pub uninterp spec fn lex_of(contents: DynBufRead, ord: Option<Vec<NamedSymbol>>) -> Option<Seq<SymbolicBDDToken>>;
+
+/// the variable list extract_vars derives from a token sequence
+pub uninterp spec fn vars_of(toks: Seq<SymbolicBDDToken>) -> Seq<Sym>;
+
+pub open spec fn same_elements(a: Seq<Sym>, b: Seq<Sym>) -> bool {
+    a.to_multiset() == b.to_multiset()
+}
+
+/// what the constructor must return for a given input: an error if the text does not lex or does not parse, otherwise
+/// the tree the grammar assigns to the token sequence, the variables of exactly that sequence, and the caller's environment
+pub open spec fn constructed(r: Result<ParsedFormula, io::Error>, contents: DynBufRead, ord: Option<Vec<NamedSymbol>>) -> bool {
+    match lex_of(contents, ord) {
+        None => r is Err,
+        Some(ts) => match p_formula(ts) {
+            None => r is Err,
+            Some(ast) => r is Ok && repr(r->Ok_0.bdd, ast) && same_elements(r->Ok_0.vars@, vars_of(ts)),
+        },
+    }
+}
